@@ -530,8 +530,10 @@ func (fc *FCtx) dryRunGhosts(st *State, body func(s *State) []*State) (changed m
 	for k, v := range fc.anchored {
 		anchored[k] = v
 	}
+	nPanic := len(fc.panicStates)
 	changed = map[string]bool{}
 	defer func() {
+		fc.panicStates = fc.panicStates[:nPanic]
 		fc.seenDef, fc.anchored = seenDef, anchored
 		fc.Obls = fc.Obls[:nObl]
 		fc.counters = counters
